@@ -322,8 +322,14 @@ def settle(pid, family, trace_module, trace_cfg, scr, drv, evdir, results, extra
     for dev, lst in cand.items():
         for (chunk, l) in lst[:max_replays]:
             event = json.loads(line_of(chunk, l))
-            case = json.loads(line_of(chunk.replace("ev-", "case-"), l))
-            path = write_replay(pid, family, case, event, dev, extra_replay)
+            casefile = chunk.replace("ev-", "case-")
+            case = json.loads(line_of(casefile, l))
+            # the calls made just before in the same process: a defect that keeps state between calls
+            # (a pool, a cache) only shows after them, so a replay runs them first
+            prelude = [json.loads(line_of(casefile, k)) for k in range(max(1, l - 6), l)]
+            xr = dict(extra_replay or {})
+            xr["prelude"] = prelude
+            path = write_replay(pid, family, case, event, dev, xr)
             # a step that walks Go maps may depend on the iteration order the runtime picks:
             # the replay is repeated until the rejection shows again (or is given up as unreproduced)
             reproduced = False
